@@ -203,6 +203,62 @@ claim(
     "DESIGN.md §5.5 C38",
 )
 
+claim(
+    "C32",
+    "ConcurrentVector used sequentially is modelled in two layers (Model/ConVec.lean): the bucket layout functions and "
+    "the container as a value with a ledger of element objects. Proved: index -> (bucket, sub-index) is a bijection with "
+    "sub-index < bucket capacity and buckets tiling the index space, for every first-bucket size (C32_sub_lt_cap, "
+    "C32_index_decomp, C32_bucket_inverse, C32_buckets_tile, C32_bucket_injective); for every operation sequence the "
+    "number of live elements equals the total size, so every element constructed is destroyed exactly once (C32_ledger, "
+    "C32_all_destroyed); every operation has std::vector's effect on contents and returns std::vector's position "
+    "(C32_sem_* for all constructors, assign, push, grow_by family, grow_to_at_least, insert x3, erase x2, resize, "
+    "reserve, pop_back, clear, shrink_to_fit, copy/move assignment, swap; frame lemma). The tie runs random operation "
+    "sequences on ConcurrentVector<Tracked,Traits> for the default and both test trait sets (first bucket of 1 and 32 "
+    "elements), std::vector and the model, comparing size, returned position, contents, live count after every "
+    "operation, iteration/indexing/reverse iteration/iterator arithmetic against std::vector, and the bucket index "
+    "functions against the model (ASan/UBSan).",
+    "Trusted: Lean kernel; the value model is hand-written and checked on the explored sequences only; iterator "
+    "arithmetic of concurrent_vector_impl2.h is compared with std::vector, not modelled; custom SizeTraits cannot be "
+    "instantiated (the iterator type hard-codes the default ones), so small buckets are reached with a 256-byte element.",
+    "Lean 4 proof (bucket bijection, ledger invariant, per-operation list semantics) + differential correspondence",
+    "DESIGN.md §5.5 C32",
+)
+
+claim(
+    "C39",
+    "OnceFunction is modelled as the storage decision plus a state machine with ledgers (Model/OnceFn.lean). Proved: "
+    "inline storage is chosen only for size <= 56 and alignment <= 64 and the 64-aligned inline buffer satisfies any such "
+    "alignment (C39_plan_inline, C39_inline_aligned); a spilled callable gets a power-of-two block >= its size whose own "
+    "alignment is a multiple of the callable's (C39_plan_spill, C39_spill_aligned, built on C44_nextPow2), size classes "
+    "map 4..256 to ordinals 0..6 (C39_getOrdinal); for every operation sequence each callable is invoked at most once and "
+    "destroyed exactly once, on invoke or cleanupNotRun, moves transfer the obligation, and spill blocks are returned "
+    "(C39_exactly_once, C39_invoke, C39_cleanup, C39_move_transfers*, C39_blocks_ledger, C39_rejects_reuse). The tie runs a "
+    "generated family of callables (sizes 8..320, alignments 1..256) through random move chains and compares storage "
+    "decision, alignment, call and destruction counts with the model (ASan/UBSan build).",
+    "Trusted: Lean kernel; hand-written model checked on the explored family; that allocSmallBuffer<N> returns N-aligned "
+    "blocks is C41's subject; byte-wise relocation of the callable is assumed valid for the callable (documented contract).",
+    "Lean 4 proof (arithmetic of the storage plan + ledger invariant) + differential correspondence",
+    "DESIGN.md §5.5 C39",
+)
+
+claim(
+    "C37",
+    "ConcurrentObjectArena is modelled as a value (sequential operations) and as a protocol at one action per atomic "
+    "operation with the resize mutex (Model/Arena.lean). Proved: grow_by returns the old size, appends default elements, "
+    "keeps earlier elements and the invariant allocated = bufSize*buffers, pos < allocated, so every index < size lies in "
+    "an allocated buffer (C37_seq_growBy, C37_seq_index_in_buffer, C37_seq_mk); copies, assignments and swap yield equal "
+    "size and contents and every buffer is freed exactly once (C37_sem_*, C37_buffers_ledger, C37_pool_inv); for any "
+    "number of concurrent growers, in every reachable state pos < allocated <= B*buffersPos with mutual exclusion of the "
+    "resize section (C37_conc_inv, C37_conc_index_in_buffer, C37_conc_local), and over whole histories the claimed ranges "
+    "tile [0, size) so each index is claimed exactly once (C37_ranges_tile, C37_ranges_cover_once, "
+    "C37_grow_returns_claim). Sequential tie: differential vs the value model under ASan; concurrent tie: traces under "
+    "the deterministic scheduler replayed through the protocol model.",
+    "Trusted: Lean kernel; dsched; SC reading; the mutex is modelled as an atomic test-and-set word whose acquisition has no "
+    "trace event; element construction is not visible in traces (checked by the harness oracle: all elements default).",
+    "Lean 4 proof (value semantics + interleaving invariant + history tiling) + differential and trace correspondence",
+    "DESIGN.md §5.5 C37",
+)
+
 ALL = ["C%02d" % i for i in range(1, 49)]
 for _p in ALL:
     if _p not in CLAIMED:
